@@ -26,6 +26,9 @@ func trSnippet(t *testing.T, src, fn string, tg transTarget) (string, []string) 
 	if tg.lean == "" {
 		tg.lean = "f"
 	}
+	if tg.calls == nil {
+		tg.calls = map[string]callVal{"filepath.Join": {lean: "Path.join2", t: tText}, "strings.HasPrefix": {lean: "Confine.hasPrefix", t: tBool}}
+	}
 	text, probs := translateFunc(f, fd, tg, transTablesFor(map[string]int64{"greater": 1, "equal": 0, "less": -1}))
 	i := strings.Index(text, "\ndef ")
 	return strings.Join(strings.Fields(text[i+1:]), " "), probs
